@@ -243,21 +243,83 @@ def _external(smt2, tmpdir, tag):
     path = os.path.join(tmpdir, "q_%s.smt2" % tag)
     with open(path, "w") as f:
         f.write("(set-logic ALL)\n" + smt2 + "\n(check-sat)\n")
-    for name, cmd in (("cvc5", ["/usr/bin/cvc5", "--tlimit=%d" % (T_EXT * 1000), path]),
-                      ("z3cli", ["/usr/bin/z3", "-T:%d" % T_EXT, path])):
-        if not os.path.exists(cmd[0]):
-            continue
+    cmds = [(name, cmd) for name, cmd in (
+        ("cvc5", ["/usr/bin/cvc5", "--tlimit=%d" % (T_EXT * 1000), path]),
+        ("z3cli", ["/usr/bin/z3", "-T:%d" % T_EXT, path])) if os.path.exists(cmd[0])]
+    procs = []
+    for name, cmd in cmds:          # both second opinions run concurrently
         try:
-            p = subprocess.run(cmd, capture_output=True, text=True, timeout=T_EXT + 10)
-            ans = (p.stdout.strip().split("\n") or [""])[0].strip()
-        except subprocess.TimeoutExpired:
-            ans = "timeout"
+            procs.append((name, subprocess.Popen(cmd, stdout=subprocess.PIPE, stderr=subprocess.PIPE, text=True)))
         except OSError as e:
-            ans = "oserror %s" % e
+            outs.append((name, "oserror %s" % e))
+    for name, p in procs:
+        try:
+            so, _ = p.communicate(timeout=T_EXT + 10)
+            ans = (so.strip().split("\n") or [""])[0].strip()[:200]
+        except subprocess.TimeoutExpired:
+            p.kill()
+            ans = "timeout"
         outs.append((name, ans))
-        if ans == "unsat":
-            break
     return outs
+
+
+def _fork_all(funcs, timeout_s):
+    """run the callables concurrently in forked children; results (JSON) come back over pipes"""
+    import json
+    import select
+    kids = []
+    for f in funcs:
+        r, w = os.pipe()
+        pid = os.fork()
+        if pid == 0:
+            code = 0
+            try:
+                os.close(r)
+                try:
+                    out = f()
+                except Exception:
+                    import traceback
+                    out = {"r": "error", "log": ["stage crashed: " + traceback.format_exc()[-400:]]}
+                data = json.dumps(out).encode()
+                with os.fdopen(w, "wb") as fh:
+                    fh.write(data)
+            except BaseException:
+                code = 1
+            finally:
+                os._exit(code)
+        os.close(w)
+        kids.append((pid, r))
+    results = []
+    deadline = time.time() + timeout_s
+    for pid, r in kids:
+        buf = b""
+        while True:
+            left = deadline - time.time()
+            if left <= 0:
+                break
+            ready, _, _ = select.select([r], [], [], left)
+            if not ready:
+                break
+            chunk = os.read(r, 65536)
+            if not chunk:
+                break
+            buf += chunk
+        os.close(r)
+        try:
+            os.kill(pid, 0)
+            if time.time() >= deadline:
+                os.kill(pid, 9)
+        except OSError:
+            pass
+        try:
+            os.waitpid(pid, 0)
+        except OSError:
+            pass
+        try:
+            results.append(json.loads(buf.decode()))
+        except Exception:
+            results.append({"r": "unknown", "log": ["stage process gave no answer (timeout/crash)"]})
+    return results
 
 
 def solve_job(i):
@@ -276,47 +338,67 @@ def solve_job(i):
         if r0 == "unsat":
             res.update(status="unsat", backend="z3", time=time.time() - t0, detail=log[0])
             return res
-        s, r, dt = _check(base + ga, tmo)
-        log.append("stageA(z3,ground):%s/%.2fs" % (r, dt))
-        res["status"] = r
-        if r == "unsat":
-            res["time"] = time.time() - t0
-            res["detail"] = "; ".join(log)
-            return res
-        if r == "sat" and job.get("params") is not None:
-            try:
-                res["model_inputs"] = _model_inputs(s.model(), job["params"])
-            except Exception as e:      # model extraction is best effort
-                log.append("model extraction failed: %r" % (e,))
         if kind in ("canary", "cover"):
+            s, r, dt = _check(base + ga, tmo)
+            log.append("stageA(z3,ground):%s/%.2fs" % (r, dt))
+            res["status"] = r
             res["time"] = time.time() - t0
             res["detail"] = "; ".join(log)
             return res
-        names = used_spec_names(specs, base + ga)
-        qa = [specs.quantified_axiom(n) for n in sorted(names)] + col_axioms()
-        sB, rB, dtB = _check(base + ga + qa, tmo)
-        log.append("stageB(z3,+E-matching axioms):%s/%.2fs" % (rB, dtB))
-        if rB == "unsat":
-            res.update(status="unsat", backend="z3+ematch")
-        elif not job.get("no_external"):
-            try:
-                smt2 = sB.to_smt2()
-                smt2 = smt2.replace("(check-sat)", "")
-                outs = _external(smt2, job["tmpdir"], str(i))
-                log.extend("stageC(%s):%s" % o for o in outs)
-                for nme, ans in outs:
-                    if ans == "unsat":
-                        res.update(status="unsat", backend=nme)
-                        break
-            except Exception as e:
-                log.append("external solvers failed: %r" % (e,))
-        if res["status"] != "unsat":
-            res["status"] = "sat" if (r == "sat") else "unknown"
-            if r != "sat":
+
+        # stage 0 did not prove it: the exact stages run concurrently in forked children
+        def stage_a():
+            s, r, dt = _check(base + ga, tmo)
+            out = {"r": r, "log": ["stageA(z3,ground):%s/%.2fs" % (r, dt)], "model_inputs": None}
+            if r == "sat" and job.get("params") is not None:
                 try:
-                    log.append("reason_unknown=" + s.reason_unknown())
+                    out["model_inputs"] = _model_inputs(s.model(), job["params"])
+                except Exception as e:      # model extraction is best effort
+                    out["log"].append("model extraction failed: %r" % (e,))
+            if r == "unknown":
+                try:
+                    out["log"].append("reason_unknown=" + s.reason_unknown())
                 except Exception:
                     pass
+            return out
+
+        def axioms():
+            names = used_spec_names(specs, base + ga)
+            return [specs.quantified_axiom(n) for n in sorted(names)] + col_axioms()
+
+        def stage_b():
+            sB, rB, dtB = _check(base + ga + axioms(), tmo)
+            return {"r": rB, "log": ["stageB(z3,+E-matching axioms):%s/%.2fs" % (rB, dtB)]}
+
+        def stage_c():
+            if job.get("no_external"):
+                return {"r": "skipped", "log": []}
+            sC = z3.Solver()
+            for f in base + ga + axioms():
+                sC.add(f)
+            smt2 = sC.to_smt2().replace("(check-sat)", "")
+            outs = _external(smt2, job["tmpdir"], str(i))
+            r = "unknown"
+            bk = None
+            for nme, ans in outs:
+                if ans == "unsat":
+                    r, bk = "unsat", nme
+                    break
+            return {"r": r, "backend": bk, "log": ["stageC(%s):%s" % o for o in outs]}
+
+        outs = _fork_all([stage_a, stage_b, stage_c], tmo + T_EXT + 30)
+        a, b, c = outs
+        for o in outs:
+            log.extend(o.get("log", []))
+        res["model_inputs"] = a.get("model_inputs")
+        if a["r"] == "unsat":
+            res.update(status="unsat", backend="z3")
+        elif b["r"] == "unsat":
+            res.update(status="unsat", backend="z3+ematch")
+        elif c["r"] == "unsat":
+            res.update(status="unsat", backend=c.get("backend") or "external")
+        else:
+            res["status"] = "sat" if a["r"] == "sat" else "unknown"
         res["time"] = time.time() - t0
         res["detail"] = "; ".join(log)
         return res
